@@ -88,9 +88,9 @@ Spec == Init /\ [][Next]_vars
 (* constants for the configurations (cfg files cannot spell hexadecimal numbers) *)
 
 \* one representative per scalar class
-RepsQuick == {\h0A, \h01, \h18, \h41, \h7F, \hE9, \h20AC, \hFEFF, \hFFFF, \h1F600}
+RepsQuick == {\h0A, \h01, \h1B, \h41, \h7F, \hE9, \h20AC, \hFEFF, \hFFFF, \h1F600}
 \* the boundaries of every class, of the UTF-8 lengths and of the surrogate gap; string delimiters
-RepsThorough == {\h00, \h09, \h0A, \h0D, \h17, \h18, \h1F, \h20, \h28, \h5C, \h7E, \h7F, \h80, \hFF, \h100,
+RepsThorough == {\h00, \h09, \h0A, \h0D, \h17, \h18, \h1B, \h1F, \h20, \h28, \h5C, \h7E, \h7F, \h80, \hFF, \h100,
                  \h7FF, \h800, \hD7FF, \hE000, \hFDD0, \hFEFF, \hFFFE, \hFFFF, \h10000, \h1F600, \h10FFFF}
 \* the bytes of both marks, a NUL, a letter, a high and a low surrogate lead byte
 RawBytes == {\hFE, \hFF, \hEF, \hBB, \hBF, \h00, \h41, \hD8, \hDC}
